@@ -54,7 +54,15 @@ func (b Binomial) LogProb(x float64) float64 {
 		return math.Inf(-1)
 	}
 	lb := combin.LogGeneralizedBinomial(b.N, x)
-	return lb + x*math.Log(b.P) + (b.N-x)*math.Log(1-b.P)
+	// 0*log(0) is 0 here: no successes when P == 0, no failures when P == 1.
+	var ls, lf float64
+	if x != 0 {
+		ls = x * math.Log(b.P)
+	}
+	if x != b.N {
+		lf = (b.N - x) * math.Log(1-b.P)
+	}
+	return lb + ls + lf
 }
 
 // Mean returns the mean of the probability distribution.
